@@ -121,9 +121,11 @@ PROPS = {
     "C10": {
         "rule": "0..4 outstanding calls; the peer's reply stream is cut after every byte offset (sub-sampled above 40 offsets in the quick tier) "
                 "and the connection closed; garbage, oversize (msize+1 and 2^31 with 9*msize bytes following), undersize frames, a reply with an "
-                "unknown tag, Unmount during calls, a caller entering while the failure happens; oracle: every call returns, success only for "
+                "unknown tag, Unmount during calls, a caller (the last, or the first with the others behind it on the pending list) held between "
+                "the enqueue and the hand-off while the failure happens; oracle: every call returns, success only for "
                 "replies completely inside the delivered prefix (payload intact), complete replies are delivered, later calls are refused "
-                "promptly and cost no tag; schedule replayed through the Lean model. non-trivial = distinct failure scenarios",
+                "promptly and cost no tag; schedule replayed through the Lean model; the hand-off/shutdown schedule points of every "
+                "scenario replayed on G9.ClntIO (clntio lines). non-trivial = distinct failure scenarios",
         "modelled": ["modelled, not verified: wall-clock bounds (an 8 s watchdog tells blocked from slow)"],
         "assumptions": ["as C09"],
     },
